@@ -511,6 +511,9 @@ def rvalue_tree(prog, f, v, flds=(), depth=0, seen=frozenset(), inline=0):
             return expr_tree(prog, f, v["a"][int(flds[0])], depth + 1, seen, inline) + _sfx(flds[1:])
         nm = (v.get("adt") or v.get("ak") or "agg").split("::")[-1] + ("::" + v["variant"] if v.get("variant") else "")
         caps = [expr_tree(prog, f, a, depth + 1, seen, inline) for a in v["a"]]
+        if nm.startswith("AnchorError") and "error_code_number" in (v.get("fields") or []):
+            # err!(X): only the error code matters (the origin carries file/line, which must not enter any key)
+            return caps[v["fields"].index("error_code_number")]
         if inline and v.get("ak") == "closure" and v.get("def") is not None:
             g = prog.fns.get(f.dinfo(v["def"])["key"])
             if g is not None and depth < 30:
@@ -587,10 +590,13 @@ def norm_cond(tree, truth):
     return tree if truth else "not(%s)" % tree
 
 
+_COND_INLINE = 0
+
+
 def switch_cond(prog, f, sw, arm):
     """canonical condition string for 'control leaves switch block sw through arm'"""
     t = f.blocks[sw]["t"]
-    tree = expr_tree(prog, f, t["on"])
+    tree = expr_tree(prog, f, t["on"], inline=_COND_INLINE)
     p = op_place(t["on"])
     isbool = p is not None and not p.get("p") and f.local_ty(p["l"])["s"] == "bool"
     arms = [int(a) for a, _ in t["arms"]]
@@ -880,7 +886,13 @@ def effect_paths(prog, f, limit=256, inline=0, probes=None):
             return
         for n in term_succ_normal(t):
             walk(n, conds, blocks, seen | {b})
-    walk(0, [], [], frozenset())
+    global _COND_INLINE
+    saved_ci = _COND_INLINE
+    _COND_INLINE = inline
+    try:
+        walk(0, [], [], frozenset())
+    finally:
+        _COND_INLINE = saved_ci
     return out
 
 
